@@ -58,6 +58,7 @@ func executeCompaction(db *DB) (compactionMetadata *proto.CompactionMetadata, er
 	compactionAction := db.sstableManager.candidateTablesForCompaction(db.compactedMaxSizeBytes, db.compactionRatio)
 	paths := compactionAction.pathsToCompact
 	numRecords := compactionAction.totalRecords
+	verifSelect(db, compactionAction)
 	if len(paths) <= db.compactionFileThreshold {
 		return nil, nil
 	}
@@ -140,6 +141,7 @@ func executeCompaction(db *DB) (compactionMetadata *proto.CompactionMetadata, er
 		return nil, err
 	}
 
+	verifMerged(compactionMetadata)
 	log.Printf("done compacting %d sstables in %v. Path: [%s]\n", len(paths), time.Since(start), writeFolder)
 
 	return compactionMetadata, nil
